@@ -8,7 +8,7 @@ rsync -a --exclude .git --exclude doc --exclude tests --exclude examples /repo/ 
 if ! ( cd "$D" && patch -p1 -s < "$OUT/$X.diff" ); then echo "$P/$X PATCH-FAILED"; rm -rf "$D"; exit 3; fi
 SF_REPO="$D" PYTHONPATH="$D" timeout 600 /venv/bin/python "$OUT/${X}_demo.py" > "$D/demo_with.log" 2>&1; dw=$?
 SF_REPO=/repo PYTHONPATH=/repo timeout 600 /venv/bin/python "$OUT/${X}_demo.py" > "$D/demo_without.log" 2>&1; dwo=$?
-out=$(SF_REPO="$D" VERIF_OUT_DIR="$D/.verif_out" VERIF_NO_GATE=1 /verif/check $P --tier $TIER 2>&1); rc=$?
+out=$(SF_REPO="$D" VERIF_OUT_DIR="$D/.verif_out" VERIF_NO_GATE=1 VERIF_BUDGET_S=3000 /verif/check $P --tier $TIER 2>&1); rc=$?
 nsig=$(echo "$out" | grep -c '^VIOLATION')
 echo "$P/$X demo_with_change=$dw demo_without=$dwo check_rc=$rc new_violation_signatures=$nsig :: $(echo "$out" | grep '  signature:' | head -3 | tr '\n' ' ' | cut -c1-300)"
 rm -rf "$D"
